@@ -13,6 +13,7 @@ use mc_sc::{dm, own_rng, release_rng, take_draws, RngMode};
 use smartcore::linalg::naive::dense_matrix::DenseMatrix;
 use smartcore::svm::svc::{SVCParameters, SVC};
 use smartcore::svm::svr::{SVRParameters, SVR};
+use smartcore::math::num::RealNumber;
 use smartcore::svm::{Kernel, Kernels};
 
 struct C10;
@@ -368,54 +369,107 @@ fn ulp_close(a: f64, b: f64, ulps: f64) -> bool {
     (a - b).abs() <= ulps * f64::EPSILON * a.abs().max(b.abs()).max(f64::MIN_POSITIVE)
 }
 
-fn kernel_case(job: &Job) {
-    let len = job.u("len");
-    let sigma = [0.0, 1.0, -1.0, 2.0, -2.0];
-    let alpha = if len == 3 && !job.b("full") { 3 } else { 5 };
-    let a: Vec<f64> = (0..len).map(|_| sigma[mc::choose(alpha)]).collect();
-    let b: Vec<f64> = (0..len).map(|_| sigma[mc::choose(alpha)]).collect();
+/// One (a, b) pair in number type T: the library's five built-in kernels against the closed form
+/// evaluated in f64 on the T-exact inputs. `tol(kernel, |argument|)` is in units of T's epsilon.
+fn kernel_pair_t<T: RealNumber>(a64: &[f64], b64: &[f64], tag: &str) {
+    let a: Vec<T> = a64.iter().map(|&v| T::from_f64(v).unwrap()).collect();
+    let b: Vec<T> = b64.iter().map(|&v| T::from_f64(v).unwrap()).collect();
+    // the values the library really sees
+    let ar: Vec<f64> = a.iter().map(|v| v.to_f64().unwrap()).collect();
+    let br: Vec<f64> = b.iter().map(|v| v.to_f64().unwrap()).collect();
+    let eps = T::epsilon().to_f64().unwrap();
+    let len = a.len() as f64;
+    let t = |v: f64| T::from_f64(v).unwrap();
     for kname in ["linear", "rbf", "poly", "poly3", "sigmoid"] {
         let kn = Kn::from_name(kname);
-        let lib = |u: &Vec<f64>, v: &Vec<f64>| -> Result<f64, mc::PanicInfo> {
-            mc::guard(|| match kn {
-                Kn::Linear => Kernels::linear().apply(u, v),
-                Kn::Rbf(g) => Kernels::rbf(g).apply(u, v),
-                Kn::Poly(d, g, c0) => Kernels::polynomial(d, g, c0).apply(u, v),
-                Kn::Sigmoid(g, c0) => Kernels::sigmoid(g, c0).apply(u, v),
+        let lib = |u: &Vec<T>, v: &Vec<T>| -> Result<f64, mc::PanicInfo> {
+            mc::guard(|| {
+                match kn {
+                    Kn::Linear => Kernels::linear().apply(u, v),
+                    Kn::Rbf(g) => Kernels::rbf(t(g)).apply(u, v),
+                    Kn::Poly(d, g, c0) => Kernels::polynomial(t(d), t(g), t(c0)).apply(u, v),
+                    Kn::Sigmoid(g, c0) => Kernels::sigmoid(t(g), t(c0)).apply(u, v),
+                }
+                .to_f64()
+                .unwrap()
             })
         };
         match (lib(&a, &b), lib(&b, &a)) {
             (Ok(kab), Ok(kba)) => {
-                let want = kn.eval(&a, &b);
-                if !ulp_close(kab, want, 4.0) {
-                    mc::violation(format!("kernel.{}:closed-form", kname), format!("K({:?},{:?})={} but the closed form gives {}", a, b, kab, want));
+                let want = kn.eval(&ar, &br);
+                // rounding a careful evaluation cannot avoid: (len+2) roundings in the dot product /
+                // squared distance, amplified by the condition number of the outer function
+                let d2: f64 = ar.iter().zip(&br).map(|(x, y)| (x - y) * (x - y)).sum();
+                let amp = match kn {
+                    Kn::Linear => 1.0,
+                    Kn::Rbf(g) => 1.0 + g * d2,
+                    Kn::Poly(d, _, _) => d + 1.0,
+                    Kn::Sigmoid(_, _) => 2.0,
+                };
+                let ulps = 4.0 + (len + 2.0) * amp;
+                let ok = kab == want || (kab - want).abs() <= ulps * eps * kab.abs().max(want.abs()).max(f64::MIN_POSITIVE) || (want.is_infinite() && kab == want);
+                if !ok {
+                    mc::violation(format!("kernel.{}:closed-form{}", kname, tag), format!("K({:?},{:?})={} but the closed form gives {} (allowed {} ulps of the number type)", ar, br, kab, want, ulps));
                 }
                 if kab.to_bits() != kba.to_bits() {
-                    mc::violation(format!("kernel.{}:asymmetric", kname), format!("K({:?},{:?})={} but K(b,a)={}", a, b, kab, kba));
+                    mc::violation(format!("kernel.{}:asymmetric{}", kname, tag), format!("K({:?},{:?})={} but K(b,a)={}", ar, br, kab, kba));
+                }
+                if let Kn::Rbf(_) = kn {
+                    if !(kab <= 1.0 && kab >= 0.0) {
+                        mc::violation(format!("kernel.rbf:outside-unit-interval{}", tag), format!("K({:?},{:?})={} is not in [0,1]", ar, br, kab));
+                    }
                 }
                 mc::outcome(kab.to_bits());
             }
-            (Err(p), _) | (_, Err(p)) => mc::violation(format!("kernel.{}:panic", kname), format!("K({:?},{:?}): {}", a, b, p.brief())),
+            (Err(p), _) | (_, Err(p)) => mc::violation(format!("kernel.{}:panic{}", kname, tag), format!("K({:?},{:?}): {}", ar, br, p.brief())),
         }
     }
-    mc::count("kernel_pairs");
-    mc::nontrivial();
-    mc::describe(|| json!({"op": "kernel", "a": a, "b": b}));
 }
 
-fn gram_case(job: &Job) {
-    let (n, dim) = (job.u("n"), job.u("dim"));
-    let side = if dim == 1 { 5 } else { 3 };
-    let pts: Vec<Vec<f64>> = (0..n).map(|_| (0..dim).map(|_| mc::choose(side) as f64 - 1.0).collect()).collect();
+/// offsets / spacings of the kernel and Gram families: (offset added to every coordinate, lattice spacing)
+const PLACEMENTS: [(f64, f64); 6] = [(0.0, 1.0), (25.0, 1.0), (30.0, 0.03125), (1000.0, 1.0), (1000.0, 0.03125), (1048576.0, 1.0)];
+
+fn kernel_case(job: &Job) {
+    let len = job.u("len");
+    let sigma = [0.0, 1.0, -1.0, 2.0, -2.0];
+    let alpha = if len == 3 && !job.b("full") { 3 } else { 5 };
+    let (off, h) = PLACEMENTS[mc::choose(PLACEMENTS.len())];
+    let wide = mc::choose(2) == 0;
+    let a: Vec<f64> = (0..len).map(|_| off + h * sigma[mc::choose(alpha)]).collect();
+    let b: Vec<f64> = (0..len).map(|_| off + h * sigma[mc::choose(alpha)]).collect();
+    if wide {
+        kernel_pair_t::<f64>(&a, &b, "");
+    } else {
+        kernel_pair_t::<f32>(&a, &b, ":f32");
+    }
+    mc::count("kernel_pairs");
+    if off != 0.0 {
+        mc::count("kernel_pairs_off_centre");
+    }
+    if !wide {
+        mc::count("kernel_pairs_f32");
+    }
+    mc::nontrivial();
+    mc::describe(|| json!({"op": "kernel", "a": a, "b": b, "type": if wide { "f64" } else { "f32" }}));
+}
+
+fn gram_t<T: RealNumber>(pts64: &[Vec<f64>], tag: &str) {
+    let n = pts64.len();
+    let pts: Vec<Vec<T>> = pts64.iter().map(|r| r.iter().map(|&v| T::from_f64(v).unwrap()).collect()).collect();
+    let eps = T::epsilon().to_f64().unwrap();
     for kname in ["linear", "rbf"] {
         let kn = Kn::from_name(kname);
         let g: Vec<Vec<f64>> = (0..n)
             .map(|i| {
                 (0..n)
-                    .map(|j| match kn {
-                        Kn::Linear => Kernels::linear().apply(&pts[i], &pts[j]),
-                        Kn::Rbf(gm) => Kernels::rbf(gm).apply(&pts[i], &pts[j]),
-                        _ => unreachable!(),
+                    .map(|j| {
+                        match kn {
+                            Kn::Linear => Kernels::linear().apply(&pts[i], &pts[j]),
+                            Kn::Rbf(gm) => Kernels::rbf(T::from_f64(gm).unwrap()).apply(&pts[i], &pts[j]),
+                            _ => unreachable!(),
+                        }
+                        .to_f64()
+                        .unwrap()
                     })
                     .collect()
             })
@@ -423,14 +477,39 @@ fn gram_case(job: &Job) {
         let (d, _) = jacobi_eig(&g);
         let tr: f64 = (0..n).map(|i| g[i][i]).sum();
         let lmin = d.last().copied().unwrap_or(0.0);
-        if !(lmin >= -1e-10 * tr.max(1e-300)) {
-            mc::violation(format!("kernel.{}:gram-not-psd", kname), format!("Gram matrix of {:?} has eigenvalue {} (trace {})", pts, lmin, tr));
+        // entries rounded to T move an eigenvalue by at most n * eps_T * max|entry| <= n * eps_T * trace
+        let slack = (4.0 * n as f64 * eps).max(1e-10);
+        if !(lmin >= -slack * tr.max(1e-300)) {
+            mc::violation(format!("kernel.{}:gram-not-psd{}", kname, tag), format!("Gram matrix of {:?} has eigenvalue {} (trace {})", pts64, lmin, tr));
+        }
+        if let Kn::Rbf(_) = kn {
+            for i in 0..n {
+                if g[i][i] != 1.0 {
+                    mc::violation(format!("kernel.rbf:diagonal-not-one{}", tag), format!("K(x,x)={} for x={:?}", g[i][i], pts64[i]));
+                }
+            }
         }
         mc::outcome(mc::hash::h_f64s_rounded(&d, 10));
     }
+}
+
+fn gram_case(job: &Job) {
+    let (n, dim) = (job.u("n"), job.u("dim"));
+    let side = if dim == 1 { 5 } else { 3 };
+    let (off, h) = PLACEMENTS[mc::choose(PLACEMENTS.len())];
+    let wide = mc::choose(2) == 0;
+    let pts: Vec<Vec<f64>> = (0..n).map(|_| (0..dim).map(|_| off + h * (mc::choose(side) as f64 - 1.0)).collect()).collect();
+    if wide {
+        gram_t::<f64>(&pts, "");
+    } else {
+        gram_t::<f32>(&pts, ":f32");
+    }
     mc::count("gram_matrices");
+    if off != 0.0 {
+        mc::count("gram_matrices_off_centre");
+    }
     mc::nontrivial();
-    mc::describe(|| json!({"op": "gram", "points": pts}));
+    mc::describe(|| json!({"op": "gram", "points": pts, "type": if wide { "f64" } else { "f32" }}));
 }
 
 fn prefixes(len: usize, side: usize) -> Vec<Vec<usize>> {
@@ -599,12 +678,12 @@ impl Harness for C10 {
             jobs,
             budget_s: if t { 2700 } else { 40 },
             case_deadline_ms: 20_000,
-            floors: vec![("svc_fits", 100_000), ("svc_non_identity_orders", 100_000), ("svc_clipped_at_C", 1000), ("svr_fits", 10_000), ("svr_at_C", 100), ("svr_zero_weight_rows", 100), ("kernel_pairs", 500), ("gram_matrices", 100)],
+            floors: vec![("svc_fits", 100_000), ("svc_non_identity_orders", 100_000), ("svc_clipped_at_C", 1000), ("svr_fits", 10_000), ("svr_at_C", 100), ("svr_zero_weight_rows", 100), ("kernel_pairs", 5000), ("kernel_pairs_off_centre", 4000), ("kernel_pairs_f32", 2500), ("gram_matrices", 1000), ("gram_matrices_off_centre", 800)],
             bounds: json!({
                 "svc_all_orders": "every x sequence over {0,1,2}^4 x every labelling with both classes x 4 kernels x (C,tol,encoding) settings x ALL (4!)^2 visiting orders (epoch 1); 2-D: every 4-subset of the 3x2 lattice; epoch 2 ((4!)^3 orders) on one sequence family (all in thorough); n=5 with all (5!)^2 orders for the linear and RBF kernels in thorough",
                 "svc_deviation_bounded": "n=6..8 fixed point sets, epochs 1,2(,4): every schedule with at most 1 (2 thorough) non-identity Fisher-Yates steps",
                 "svr": "every x sequence over {0,1,2}^n, y over {-1,0,2}^n, n<=4 (5 thorough) x eps {0,.1,.5} x C {.1,1,100} x tol {1e-2,1e-3,1e-4} x {linear,rbf,poly}; structured sets n in {8,20,72} (also 40,80 thorough)",
-                "kernels": "every vector pair of length <=2 over {0,±1,±2} and length 3 over {0,±1} (all in thorough); Gram matrices of every point sequence n<=4",
+                "kernels": "every vector pair of length <=2 over {0,±1,±2} and length 3 over {0,±1} (all in thorough), each at 6 placements (offset, spacing) in {(0,1),(25,1),(30,1/32),(1000,1),(1000,1/32),(2^20,1)} and in f64 and f32, against the closed form with a rounding allowance of 4+(len+2)*cond ulps of the number type, exact symmetry, RBF in [0,1]; Gram matrices (linear, RBF) of every point sequence n<=4 at the same placements and widths: PSD, RBF diagonal exactly 1",
             }),
         }
     }
